@@ -1,6 +1,7 @@
 package main
 
 import (
+	"time"
 	"bytes"
 	"context"
 	"database/sql/driver"
@@ -60,7 +61,9 @@ type stmtSpec struct {
 
 // 'z': a type the harness registers through wire.ExtendTypes (OID 90001, codec zcodec, Go type zval):
 // without the registration in the connection's own type map it can be neither encoded nor decoded
-var colOids = map[byte]oid.Oid{'b': 16, 's': 21, 'i': 23, 'l': 20, 't': 25, 'v': 1043, 'y': 17, 'u': 2950, 'f': 700, 'd': 701, 'z': 90001}
+var colOids = map[byte]oid.Oid{'b': 16, 's': 21, 'i': 23, 'l': 20, 't': 25, 'v': 1043, 'y': 17, 'u': 2950, 'f': 700, 'd': 701, 'z': 90001,
+	// 'm' timestamp, 'e' date: outside the Lean model (cases carry nomodel=1); campaign `times`
+	'm': 1114, 'e': 1082}
 
 func unhexStrict(s string) ([]byte, bool) {
 	if len(s)%2 != 0 {
@@ -138,6 +141,15 @@ func parseVal(s string) (val, bool) {
 			return val{}, false
 		}
 		return val{kind: 'f', bits: uint64(uint32(b[0])<<24 | uint32(b[1])<<16 | uint32(b[2])<<8 | uint32(b[3]))}, true
+	case strings.HasPrefix(s, "m"):
+		// m<unix seconds>_<zone offset in minutes + 10000>: a time.Time in a fixed zone
+		parts := strings.Split(s[1:], "_")
+		if len(parts) != 2 {
+			return val{}, false
+		}
+		sec, ok1 := intStrict(parts[0])
+		off, ok2 := intStrict(parts[1])
+		return val{kind: 'm', i: sec, bits: uint64(off)}, ok1 && ok2 && off >= 0 && off <= 20000
 	case strings.HasPrefix(s, "d"):
 		b, ok := unhexStrict(s[1:])
 		if !ok || len(b) != 8 {
@@ -661,6 +673,10 @@ func goValue(v val, o oid.Oid) any {
 			var a [16]byte
 			copy(a[:], v.s)
 			return a
+		}
+	case 'm':
+		if fits(1114, 1082) {
+			return time.Unix(v.i, 0).In(time.FixedZone("verif", (int(v.bits)-10000)*60))
 		}
 	case 'f':
 		if fits(700) {
